@@ -163,6 +163,9 @@ func checkC13(r *Run) error {
 	if err := c13Tiny(r, st); err != nil {
 		return err
 	}
+	// the two fixed input lists ride along; the time budget is for the seeded search
+	fixedS := time.Since(r.Start)
+	r.Budget += fixedS
 	for r.Left() > 0 {
 		sub := rng.Sub()
 		if rounds == 0 {
@@ -206,6 +209,7 @@ func checkC13(r *Run) error {
 	}
 	extra := map[string]any{
 		"rounds":            rounds,
+		"fixed_lists_wall_s": fixedS.Seconds(),
 		"runs_per_hour":     int(float64(st.evals) / wall * 3600),
 		"seeds":             map[string]any{"VERIF_SEED": r.Seed, "first_round_subseed": firstSub, "last_round_subseed": lastSub},
 		"sim_steps":         map[string]any{"ticks": st.ticks, "io_operations": st.ios, "note": "the system has no timers; simulated time is logical steps"},
